@@ -66,6 +66,8 @@ enum SigT {
     ArrayOfNumOrStr,
     /// expref|number
     ExprefOrNum,
+    /// array[number]|array[string]
+    ArrNumOrArrStr,
 }
 
 const SIGTS: &[SigT] = &[
@@ -83,6 +85,7 @@ const SIGTS: &[SigT] = &[
     SigT::ArrNumOrStr,
     SigT::ArrayOfNumOrStr,
     SigT::ExprefOrNum,
+    SigT::ArrNumOrArrStr,
 ];
 
 impl SigT {
@@ -102,6 +105,7 @@ impl SigT {
             SigT::ArrNumOrStr => "array[number]|string",
             SigT::ArrayOfNumOrStr => "array[number|string]",
             SigT::ExprefOrNum => "expref|number",
+            SigT::ArrNumOrArrStr => "array[number]|array[string]",
         }
     }
     fn from_name(s: &str) -> Option<SigT> {
@@ -131,6 +135,10 @@ impl SigT {
                 ArgumentType::String,
             ]))),
             SigT::ExprefOrNum => ArgumentType::Union(vec![ArgumentType::Expref, ArgumentType::Number]),
+            SigT::ArrNumOrArrStr => ArgumentType::Union(vec![
+                ArgumentType::TypedArray(Box::new(ArgumentType::Number)),
+                ArgumentType::TypedArray(Box::new(ArgumentType::String)),
+            ]),
         }
     }
     /// The reference model's own notion of "argument satisfies type".
@@ -159,6 +167,12 @@ impl SigT {
                 _ => false,
             },
             SigT::ExprefOrNum => matches!(v, Variable::Expref(_) | Variable::Number(_)),
+            SigT::ArrNumOrArrStr => match v {
+                Variable::Array(a) => {
+                    a.iter().all(|x| matches!(**x, Variable::Number(_))) || a.iter().all(|x| matches!(**x, Variable::String(_)))
+                }
+                _ => false,
+            },
         }
     }
 }
@@ -658,6 +672,7 @@ fn gen_sig(r: &mut Rng) -> Sig {
         SigT::ArrNumOrStr,
         SigT::ArrayOfNumOrStr,
         SigT::ExprefOrNum,
+        SigT::ArrNumOrArrStr,
     ];
     Sig {
         // up to 4 declared inputs
@@ -679,7 +694,7 @@ fn gen_arg(r: &mut Rng, depth: u32, names: &[&str]) -> String {
         1 | 2 => (*r.pick(&["a", "b", "ys", "o", "e", "xs", "k", "n", "missing"])).to_string(),
         3 => (*r.pick(&[
             "`1`", "`-3`", "`\"lit\"`", "`[1, 2]`", "`null`", "`{\"q\": 1}`", "'raw'", "`2.5`", "`[[1, 2], [3]]`",
-            "`[[1, 2], [3, \"x\"]]`", "`[1, \"s\"]`", "`[[1], 2]`", "`[]`", "`[[]]`", "`[1, null]`",
+            "`[[1, 2], [3, \"x\"]]`", "`[1, \"s\"]`", "`[\"s\", \"t\"]`", "`[\"s\", 1, \"t\"]`", "`[[1], 2]`", "`[]`", "`[[]]`", "`[1, null]`",
         ]))
         .to_string(),
         4 => format!("&{}", r.pick(&["a", "k", "@", "n", "o.z"])),
@@ -948,7 +963,7 @@ fn identify(f: &dyn Function, rt: &Runtime, log: &Log, expect_sig: Option<&Sig>)
             SigT::Any | SigT::Number | SigT::NumOrStr | SigT::ExprefOrNum => Variable::Number(serde_json::Number::from(-3)),
             SigT::String => Variable::String("p".into()),
             SigT::Expref => Variable::Expref(Ast::Identity { offset: 0 }),
-            SigT::Array | SigT::ArrayNumber | SigT::ArrayArrayNumber | SigT::ArrNumOrStr | SigT::ArrayOfNumOrStr => {
+            SigT::Array | SigT::ArrayNumber | SigT::ArrayArrayNumber | SigT::ArrNumOrStr | SigT::ArrayOfNumOrStr | SigT::ArrNumOrArrStr => {
                 Variable::Array(vec![])
             }
             SigT::Object => Variable::Object(BTreeMap::new()),
